@@ -195,7 +195,7 @@ PROPS = {
         exhaustive_thorough=True,
         trusted=COMMON_TRUST + ["templateOk / scanOk: evaluated by native_decide (Lean compiler trusted for these closed terms)"]),
     "C16": dict(
-        module="FastQr.Props.C16", more_modules=["FastQr.Props.C16Values"], level="proof", key=lambda t: ("term", t[3], t[4], len(t[1]) % 7) if len(t) > 5 else None,
+        module="FastQr.Props.C16", more_modules=["FastQr.Props.C16Values", "FastQr.Props.C16Built"], level="proof", key=lambda t: ("term", t[3], t[4], len(t[1]) % 7) if len(t) > 5 else None,
         rule="cases: real QRCode::to_str() on real symbols of all 40 sizes (3 payloads each, thorough 50: random level/mode/mask, "
              "one at capacity); spec verdict = line count, line lengths, four-glyph alphabet and the grid decoded by "
              "Spec.TermDecode = matrix inside a one-module light border. distinct = (mode, version, payload length class).",
